@@ -228,6 +228,9 @@ func (c *connection) sendWaitReply(callerCtx context.Context, msg Message) (Mess
 		key := msg.SystemBytes()
 		ch = e.replies.register(key)
 		defer e.replies.deregister(key)
+		if isData {
+			e.replies.markData(key)
+		}
 	}
 
 	// Synchronous writev == on-wire (§9.4.1.2). writeFrame runs the B2 write-boundary
